@@ -1,5 +1,6 @@
 import OSProofs.Props.C04
 import OSProofs.Props.C04b
+import OSProofs.Props.Gamma
 #print axioms OS.sumL_perm
 #print axioms OS.C04_teamAgg_perm
 #print axioms OS.C04_applyTeam_perm
@@ -24,3 +25,10 @@ import OSProofs.Props.C04b
 #print axioms OS.C04b_rate_teamPerm_tiefree
 #print axioms OS.C04b_rate_full_sortfree
 #print axioms OS.C04b_rate_teamPerm_full
+#print axioms OS.C04_playerPerm_any_gamma
+#print axioms OS.C04b_omegaDelta_congr_tagged
+#print axioms OS.C04b_rate_playerPerm_tagged
+#print axioms OS.C04b_rate_playerPerm_fn_tagged
+#print axioms OS.Gamma_tagged_players
+#print axioms OS.Gamma_fn_permInv
+#print axioms OS.gam_teamSigma_permInv
